@@ -153,7 +153,7 @@ def coq_make(jobs=16, clean=False, timeout=3000, target=None):
                            stderr=subprocess.DEVNULL)
         cmd = ['timeout', str(timeout), 'make', '-f', 'Makefile.coq', f'-j{jobs}']
         if target:
-            cmd.append(target)
+            cmd.extend(target if isinstance(target, (list, tuple)) else [target])
         r = subprocess.run(cmd, cwd=COQ,
                            stdout=subprocess.PIPE, stderr=subprocess.STDOUT, text=True)
         return r.returncode == 0, r.stdout[-4000:]
